@@ -11,3 +11,579 @@ for _n, _v in [('HEADER_TABLE_SIZE', 1), ('ENABLE_PUSH', 2), ('MAX_CONCURRENT_ST
                ('INITIAL_WINDOW_SIZE', 4), ('MAX_FRAME_SIZE', 5), ('MAX_HEADER_LIST_SIZE', 6),
                ('ENABLE_CONNECT_PROTOCOL', 8)]:
     EXTERN_ATTRS['hyperframe.frame.SettingsFrame.' + _n] = _v
+
+
+# ---------------------------------------------------------------------------
+# hyperframe frames (ASSUMED model of hyperframe 6.x constructors, flags,
+# flow_controlled_length, serialize preconditions and body lengths)
+HF = 'hyperframe.frame.'
+FRAME_DEFS = {
+    'DataFrame': dict(flags=['END_STREAM', 'PADDED'], assoc='has', fields={'pad_length': 0, 'data': b''}, pos=['stream_id', 'data']),
+    'HeadersFrame': dict(flags=['END_STREAM', 'END_HEADERS', 'PADDED', 'PRIORITY'], assoc='has',
+                         fields={'pad_length': 0, 'depends_on': 0, 'stream_weight': 0, 'exclusive': False, 'data': b''},
+                         pos=['stream_id', 'data']),
+    'PriorityFrame': dict(flags=[], assoc='has', fields={'depends_on': 0, 'stream_weight': 0, 'exclusive': False},
+                          pos=['stream_id', 'depends_on', 'stream_weight', 'exclusive']),
+    'RstStreamFrame': dict(flags=[], assoc='has', fields={'error_code': 0}, pos=['stream_id', 'error_code']),
+    'SettingsFrame': dict(flags=['ACK'], assoc='no', fields={'settings': None}, pos=['stream_id', 'settings'], default_sid=0),
+    'PushPromiseFrame': dict(flags=['END_HEADERS', 'PADDED'], assoc='has',
+                             fields={'pad_length': 0, 'promised_stream_id': 0, 'data': b''},
+                             pos=['stream_id', 'promised_stream_id', 'data']),
+    'PingFrame': dict(flags=['ACK'], assoc='no', fields={'opaque_data': b''}, pos=['stream_id', 'opaque_data'], default_sid=0),
+    'GoAwayFrame': dict(flags=[], assoc='no', fields={'last_stream_id': 0, 'error_code': 0, 'additional_data': b''},
+                        pos=['stream_id', 'last_stream_id', 'error_code', 'additional_data'], default_sid=0),
+    'WindowUpdateFrame': dict(flags=[], assoc='either', fields={'window_increment': 0}, pos=['stream_id', 'window_increment']),
+    'ContinuationFrame': dict(flags=['END_HEADERS'], assoc='has', fields={'data': b''}, pos=['stream_id', 'data']),
+    'AltSvcFrame': dict(flags=[], assoc='either', fields={'origin': b'', 'field': b''}, pos=['stream_id', 'origin', 'field']),
+    'ExtensionFrame': dict(flags=[], assoc='either', fields={'type': 0, 'flag_byte': 0, 'body': b''},
+                           pos=['type', 'stream_id', 'flag_byte', 'body']),
+}
+
+
+def _mk_frame_ctor(name, d):
+    def ctor(I, args, kwargs, node):
+        fields = dict(d['fields'])
+        vals = {}
+        for p, v in zip(d['pos'], args):
+            vals[p] = v
+        flags_arg = kwargs.pop('flags', ()) if 'flags' in kwargs else ()
+        vals.update(kwargs)
+        if 'stream_id' not in vals:
+            if 'default_sid' in d:
+                vals['stream_id'] = d['default_sid']
+            else:
+                I.raise_builtin('TypeError', node=node)
+        sid = vals.pop('stream_id')
+        for k, v in vals.items():
+            if k not in fields:
+                I.raise_builtin('TypeError', node=node)
+            fields[k] = v
+        if name == 'SettingsFrame':
+            if fields['settings'] is None or (isinstance(fields['settings'], Ref) and not I.truth_is_true(fields['settings'])):
+                fields['settings'] = I.heap.alloc(DictObj({}))
+        flags = I.heap.alloc(Obj('hyperframe.flags.Flags', {'defined': tuple(d['flags']),
+                                                            'set': {f: False for f in d['flags']}}))
+        fields.update(stream_id=sid, flags=flags, body_len=0)
+        ref = I.heap.alloc(Obj(HF + name, fields))
+        for f in I.iter_values(flags_arg, node):
+            flags_add(I, flags, I.heap.get(flags), [f], {}, node)
+        # stream association (Frame.__init__)
+        sid = I.unopt(sid, node)
+        if sid is None:
+            nz = False
+        else:
+            nz = I.truth(sid)
+        if d['assoc'] == 'has':
+            if not I.branch(nz, 'frame-has-stream'):
+                I.raise_builtin('hyperframe.exceptions.InvalidDataError', node=node)
+        elif d['assoc'] == 'no':
+            if I.branch(nz, 'frame-no-stream'):
+                I.raise_builtin('hyperframe.exceptions.InvalidDataError', node=node)
+        if name == 'AltSvcFrame':
+            for k in ('origin', 'field'):
+                if str_kind(fields[k]) != 'bytes':
+                    I.raise_builtin('hyperframe.exceptions.InvalidDataError', node=node)
+        return ref
+    return ctor
+
+
+for _n, _d in FRAME_DEFS.items():
+    EXTERN_CALLS[HF + _n] = _mk_frame_ctor(_n, _d)
+
+
+@extern_method('hyperframe.flags.Flags', 'add')
+def flags_add(I, ref, o, args, kwargs, node):
+    name = args[0]
+    if not isinstance(name, str) or name not in o.fields['defined']:
+        I.raise_builtin('ValueError', node=node)
+    o.fields['set'] = dict(o.fields['set'])
+    o.fields['set'][name] = True
+    return None
+
+
+@extern_method('hyperframe.flags.Flags', 'discard')
+def flags_discard(I, ref, o, args, kwargs, node):
+    name = args[0]
+    if isinstance(name, str) and name in o.fields['set']:
+        o.fields['set'] = dict(o.fields['set'])
+        o.fields['set'][name] = False
+    return None
+
+
+def flags_contains(I, ref, o, item, node):
+    if isinstance(item, str):
+        return o.fields['set'].get(item, False)
+    return False
+
+
+def frame_setattr(I, ref, o, attr, v, node):
+    if attr == 'flags':
+        # f.flags = {'ACK'}: a plain set replaces the Flags object
+        if isinstance(v, Ref) and isinstance(I.heap.get(v), SetObj):
+            so = I.heap.get(v)
+            name = o.cls[len(HF):]
+            defined = tuple(FRAME_DEFS[name]['flags'])
+            st = {f: False for f in defined}
+            extra = {}
+            for k, m in so.elems.items():
+                if k in st:
+                    st[k] = m
+                else:
+                    extra[k] = m
+            st.update(extra)
+            o.fields['flags'] = I.heap.alloc(Obj('hyperframe.flags.Flags', {'defined': defined + tuple(extra), 'set': st}))
+            return None
+    o.fields[attr] = v
+    return None
+
+
+def frame_getattr(I, ref, o, attr, node):
+    name = o.cls[len(HF):]
+    if attr == 'flow_controlled_length' and name == 'DataFrame':
+        padded = flags_contains(I, None, I.heap.get(o.fields['flags']), 'PADDED', node)
+        pl = I.int_of(I.unopt_strict(o.fields['pad_length'], node))
+        n = I.str_len(o.fields['data'])
+        return zint(n) + z3.If(zbool(padded), zint(pl) + 1, 0) if not (isinstance(padded, bool) and isinstance(n, int) and isinstance(pl, int)) \
+            else n + (pl + 1 if padded else 0)
+    if attr == '__class__':
+        return ExternV(o.cls)
+    if attr == 'serialize':
+        return BuiltinMethod(ref, 'serialize')
+    if attr in ('serialize_body', 'parse_body'):
+        return BuiltinMethod(ref, attr)
+    return NotImplemented
+
+
+for _n in FRAME_DEFS:
+    EXTERN_GETATTR[HF + _n] = frame_getattr
+    EXTERN_SETATTR[HF + _n] = frame_setattr
+
+
+def _rng(I, v, lo, hi, node):
+    """struct.pack range check: value must be an int in [lo, hi]."""
+    v = I.unopt(v, node)
+    if v is None or not (is_int_like(v) or is_bool_like(v) or isinstance(v, EnumV)):
+        I.raise_builtin('struct.error', node=node)
+    x = I.int_of(v)
+    ok = zand(zint(x) >= lo, zint(x) <= hi) if not isinstance(x, int) else (lo <= x <= hi)
+    if not I.branch(ok, 'struct-range'):
+        I.raise_builtin('struct.error', node=node)
+    return x
+
+
+def frame_body_len(I, o, node):
+    name = o.cls[len(HF):]
+    f = o.fields
+    fl = I.heap.get(f['flags'])
+
+    def has(flag):
+        return flags_contains(I, None, fl, flag, node)
+
+    def ln(v):
+        if str_kind(v) != 'bytes':
+            I.raise_builtin('TypeError', node=node)
+        return zint(I.str_len(v))
+    U32 = 2 ** 32 - 1
+    if name in ('DataFrame', 'HeadersFrame', 'PushPromiseFrame'):
+        pl = f['pad_length']
+        padded = has('PADDED')
+        if I.branch(padded, 'padded'):
+            pl = _rng(I, pl, 0, 255, node)
+            extra = 1
+        else:
+            pl = I.int_of(I.unopt_strict(pl, node))
+            extra = 0
+        # b"\0" * pad_length is appended whether or not PADDED is set
+        padbytes = z3.If(zint(pl) < 0, 0, zint(pl))
+        n = extra + ln(f['data']) + padbytes
+        if name == 'HeadersFrame' and I.branch(has('PRIORITY'), 'prio-flag'):
+            ex = f['exclusive']
+            d = I.int_of(I.unopt_strict(f['depends_on'], node))
+            exb = I.truth(ex)
+            _rng(I, zint(d) + z3.If(zbool(exb), 2 ** 31, 0), 0, U32, node)
+            _rng(I, f['stream_weight'], 0, 255, node)
+            n = n + 5
+        if name == 'PushPromiseFrame':
+            _rng(I, f['promised_stream_id'], 0, U32, node)
+            n = n + 4
+        return n
+    if name == 'PriorityFrame':
+        d = I.int_of(I.unopt_strict(f['depends_on'], node))
+        exb = I.truth(f['exclusive'])
+        _rng(I, zint(d) + z3.If(zbool(exb), 2 ** 31, 0), 0, U32, node)
+        _rng(I, f['stream_weight'], 0, 255, node)
+        return 5
+    if name == 'RstStreamFrame':
+        _rng(I, f['error_code'], 0, U32, node)
+        return 4
+    if name == 'SettingsFrame':
+        return I.settings_body_len(f['settings'], node)
+    if name == 'PingFrame':
+        n = ln(f['opaque_data'])
+        if not I.branch(n <= 8, 'ping-len'):
+            I.raise_builtin('hyperframe.exceptions.InvalidFrameError', node=node)
+        return 8
+    if name == 'GoAwayFrame':
+        I.int_of(I.unopt_strict(f['last_stream_id'], node))
+        _rng(I, f['error_code'], 0, U32, node)
+        return 8 + ln(f['additional_data'])
+    if name == 'WindowUpdateFrame':
+        I.int_of(I.unopt_strict(f['window_increment'], node))
+        return 4
+    if name == 'ContinuationFrame':
+        return ln(f['data'])
+    if name == 'AltSvcFrame':
+        no = ln(f['origin'])
+        if not I.branch(no <= 65535, 'altsvc-origin-len'):
+            I.raise_builtin('struct.error', node=node)
+        return 2 + no + ln(f['field'])
+    if name == 'ExtensionFrame':
+        return I.int_of(f['body_len'])
+    raise Unsupported('body_len of ' + name)
+
+
+def frame_serialize(I, ref, o, args, kwargs, node):
+    """serialize(): checks the struct.pack preconditions (raising struct.error
+    like the real code), sets body_len, records the frame in the ghost g_out
+    and returns opaque bytes of length 9 + body_len."""
+    sid = I.unopt_strict(o.fields['stream_id'], node)
+    I.int_of(sid)
+    n = frame_body_len(I, o, node)
+    o.fields['body_len'] = z3.simplify(zint(n)) if not isinstance(n, int) else n
+    I.ghost_emit(ref)
+    out = I.fresh('wire', 'str')
+    I.assume(z3.Length(out) == 9 + zint(n))
+    return SymStr('bytes', out)
+
+
+for _n in FRAME_DEFS:
+    EXTERN_METHODS[(HF + _n, 'serialize')] = frame_serialize
+
+
+# ---------------------------------------------------------------------------
+# collections.deque of Optional[int]  (Settings._settings values)
+#   items: z3 Seq Int, head_none: Bool (first element is None)
+DQ = 'collections.deque'
+SEQ_INT = z3.SeqSort(z3.IntSort())
+
+
+def _dq_get(I, recv):
+    if isinstance(recv, View):
+        m = I.heap.objs[recv.moid]
+        return (z3.Select(m.arrays[recv.prefix + 'items'], recv.idx),
+                z3.Select(m.arrays[recv.prefix + 'head_none'], recv.idx))
+    o = I.heap.get(recv)
+    if o.forward is not None:
+        return _dq_get(I, o.forward)
+    return o.fields['items'], o.fields['head_none']
+
+
+def _dq_set(I, recv, items, head_none):
+    if isinstance(recv, View):
+        m = I.heap.objs[recv.moid]
+        m.arrays[recv.prefix + 'items'] = z3.Store(m.arrays[recv.prefix + 'items'], recv.idx, items)
+        m.arrays[recv.prefix + 'head_none'] = z3.Store(m.arrays[recv.prefix + 'head_none'], recv.idx, zbool(head_none))
+        return
+    o = I.heap.get(recv)
+    if o.forward is not None:
+        return _dq_set(I, o.forward, items, head_none)
+    o.fields['items'], o.fields['head_none'] = items, head_none
+
+
+@extern_call('collections.deque')
+def deque_new(I, args, kwargs, node):
+    items = z3.Empty(SEQ_INT)
+    head_none = False
+    if args:
+        vals = list(I.iter_values(args[0], node))
+        for i, v in enumerate(vals):
+            if v is None:
+                if i != 0:
+                    raise Unsupported('deque with None beyond the head')
+                head_none = True
+                items = z3.Concat(items, z3.Unit(z3.IntVal(0)))
+            else:
+                v = I.unopt(v, node)
+                items = z3.Concat(items, z3.Unit(zint(I.int_of(v))))
+    return I.heap.alloc(Obj(DQ, {'items': z3.simplify(items), 'head_none': head_none}))
+
+
+@extern_method(DQ, '__len__')
+def deque_len(I, recv, o, args, kwargs, node):
+    items, _ = _dq_get(I, recv)
+    return z3.Length(items)
+
+
+@extern_method(DQ, '__getitem__')
+def deque_getitem(I, recv, o, args, kwargs, node):
+    items, hn = _dq_get(I, recv)
+    i = I.int_of(args[0])
+    if not (isinstance(i, int) and i == 0):
+        raise Unsupported('deque index other than 0')
+    if not I.branch(z3.Length(items) > 0, 'deque-nonempty'):
+        I.raise_builtin('IndexError', node=node)
+    return Opt(zbool(hn), z3.simplify(items[0]))
+
+
+@extern_method(DQ, 'append')
+def deque_append(I, recv, o, args, kwargs, node):
+    items, hn = _dq_get(I, recv)
+    v = I.unopt(args[0], node)
+    if v is None:
+        raise Unsupported('deque.append(None)')
+    empty = z3.Length(items) == 0
+    _dq_set(I, recv, z3.Concat(items, z3.Unit(zint(I.int_of(v)))), zand(hn, znot(empty)) if True else hn)
+    return None
+
+
+@extern_method(DQ, 'popleft')
+def deque_popleft(I, recv, o, args, kwargs, node):
+    items, hn = _dq_get(I, recv)
+    if not I.branch(z3.Length(items) > 0, 'deque-nonempty'):
+        I.raise_builtin('IndexError', node=node)
+    head = Opt(zbool(hn), z3.simplify(items[0]))
+    _dq_set(I, recv, z3.SubString(items, 1, z3.Length(items) - 1), False)
+    return head
+
+
+def view_getitem_dispatch(I, view, idx, node):
+    f = EXTERN_METHODS.get((view.cls, '__getitem__'))
+    if f:
+        return f(I, view, None, [idx], {}, node)
+    raise Unsupported('subscript on view of %r' % (view.cls,))
+
+
+# ---------------------------------------------------------------------------
+# collections.abc.MutableMapping mixin methods (reference implementations)
+MM = 'collections.abc.MutableMapping'
+
+
+@extern_method(MM, 'get')
+def mm_get(I, recv, o, args, kwargs, node):
+    default = args[1] if len(args) > 1 else kwargs.get('default')
+    try:
+        return I.getitem(recv, args[0], node)
+    except PyRaise as pr:
+        if I.exc_matches(pr.exc, ExternV('builtins.KeyError')):
+            return default
+        raise
+
+
+@extern_method(MM, 'update')
+def mm_update(I, recv, o, args, kwargs, node):
+    """update(other): for key in other: self[key] = other[key] -- sequential,
+    so an exception leaves the earlier keys applied."""
+    other = args[0]
+    if isinstance(other, Ref) and isinstance(I.heap.get(other), MapObj):
+        return I.map_update_loop(recv, other, node)
+    for k in I.iter_values(other, node):
+        I.setitem(recv, k, I.getitem(other, k, node), node)
+    return None
+
+
+@extern_method(MM, 'items')
+def mm_items(I, recv, o, args, kwargs, node):
+    return I.heap.alloc(Obj('mapping-items', {'mapping': recv}))
+
+
+@extern_method(MM, 'keys')
+def mm_keys(I, recv, o, args, kwargs, node):
+    return I.heap.alloc(Obj('mapping-keys', {'mapping': recv}))
+
+
+# ---------------------------------------------------------------------------
+# collections.namedtuple
+@extern_call('collections.namedtuple')
+def namedtuple_factory(I, args, kwargs, node):
+    fields = tuple(I.iter_values(args[1], node))
+    return I.heap.alloc(Obj('namedtuple-class', {'name': args[0], 'fields': fields}))
+
+
+# ---------------------------------------------------------------------------
+# hpack (ASSUMED): Encoder.encode consumes its iterable element by element and
+# changes the compression context as soon as one field has been consumed;
+# Decoder.decode returns a list of (name, value) byte pairs or raises an
+# HPACKError subclass.
+@extern_call('hpack.hpack.Encoder')
+def encoder_new(I, args, kwargs, node):
+    return I.heap.alloc(Obj('hpack.hpack.Encoder', {'header_table_size': 4096}))
+
+
+@extern_call('hpack.hpack.Decoder')
+def decoder_new(I, args, kwargs, node):
+    return I.heap.alloc(Obj('hpack.hpack.Decoder', {'max_header_list_size': 65536, 'max_allowed_table_size': 4096}))
+
+
+@extern_method('hpack.hpack.Encoder', 'encode')
+def encoder_encode(I, ref, o, args, kwargs, node):
+    n = 0
+    items = []
+    try:
+        for h in I.iter_values(args[0], node):
+            n += 1
+            items.append(h)
+            if n == 1:
+                I.g_enc = I.g_enc + 1       # context changes with the first consumed field
+    finally:
+        I.g_enc_log.append(('encode', n))
+    I.last_encoded = items
+    out = I.fresh('hblock', 'str')
+    I.assume(z3.Length(out) >= (1 if n else 0))
+    if n == 0:
+        I.assume(z3.Length(out) == 0)
+    return SymStr('bytes', out)
+
+
+def encoder_setattr(I, ref, o, attr, v, node):
+    if attr == 'header_table_size':
+        I.g_enc = I.g_enc + 1           # a table-size change is part of the context
+    o.fields[attr] = v
+    return None
+
+
+EXTERN_SETATTR['hpack.hpack.Encoder'] = encoder_setattr
+
+
+# base64 (ASSUMED inverse pair)
+@extern_call('base64.urlsafe_b64encode')
+def b64enc(I, args, kwargs, node):
+    s = to_zstr(args[0])
+    f = z3.Function('b64enc', z3.StringSort(), z3.StringSort())
+    return SymStr('bytes', f(s))
+
+
+# ---------------------------------------------------------------------------
+# collections.OrderedDict as the base of h2.utilities.SizeLimitDict:
+# backing store = symbolic map int -> Optional[StreamClosedBy] with a size ghost.
+OD = 'collections.OrderedDict'
+
+
+def _od_map(I, ref):
+    o = I.heap.get(ref)
+    return o.fields['_od'], I.heap.get(o.fields['_od'])
+
+
+@extern_method(OD, '__init__')
+def od_init(I, ref, o, args, kwargs, node):
+    if args or kwargs:
+        raise Unsupported('OrderedDict(...) with initial content')
+    I.heap.get(ref).fields['_od'] = I.new_empty_map('closed', None, scalar_desc='optenum:StreamClosedBy')
+    return None
+
+
+@extern_method(OD, '__setitem__')
+def od_setitem(I, ref, o, args, kwargs, node):
+    mref, m = _od_map(I, ref)
+    I.store_obj_into_map(mref, args[0], args[1], node)
+    return None
+
+
+@extern_method(OD, '__getitem__')
+def od_getitem(I, ref, o, args, kwargs, node):
+    mref, m = _od_map(I, ref)
+    return I.map_lookup(mref, m, args[0], node)
+
+
+@extern_method(OD, '__contains__')
+def od_contains(I, ref, o, args, kwargs, node):
+    mref, m = _od_map(I, ref)
+    return I.contains(mref, args[0], node)
+
+
+@extern_method(OD, '__len__')
+def od_len(I, ref, o, args, kwargs, node):
+    mref, m = _od_map(I, ref)
+    return m.size
+
+
+@extern_method(OD, 'popitem')
+def od_popitem(I, ref, o, args, kwargs, node):
+    """popitem(last=False): removes the oldest key -- modelled as removing
+    SOME present key (over-approximation of FIFO order)."""
+    mref, m = _od_map(I, ref)
+    if not I.branch(zint(m.size) > 0, 'od-nonempty'):
+        I.raise_builtin('KeyError', node=node)
+    k = I.fresh('evicted', 'int')
+    I.assume(z3.Select(m.dom, k))
+    v = I.map_lookup(mref, m, k, node)
+    I.map_remove(m, k)
+    I.g_evicted = getattr(I, 'g_evicted', []) + [k]
+    return (k, v)
+
+
+# ---------------------------------------------------------------------------
+# Parser OUTPUT contract (ASSUMED): what Frame.parse_frame_header + parse_body
+# can hand to h2 -- any of the 12 classes, fields in wire ranges.
+def sym_frame(I, desc, name):
+    cls = desc.split(':')[1]
+    d = FRAME_DEFS[cls]
+    U31, U32 = 2 ** 31 - 1, 2 ** 32 - 1
+    sid = I.fresh(name + '.stream_id', 'int')
+    if d['assoc'] == 'no':
+        I.assume(sid == 0)
+    elif d['assoc'] == 'has':
+        I.assume(z3.And(sid >= 1, sid <= U31))
+    else:
+        I.assume(z3.And(sid >= 0, sid <= U31))
+    fl = {f: I.fresh('%s.flag.%s' % (name, f), 'bool') for f in d['flags']}
+    flags = I.heap.alloc(Obj('hyperframe.flags.Flags', {'defined': tuple(d['flags']), 'set': fl}))
+    f = {'stream_id': sid, 'flags': flags}
+
+    def rng(n, lo, hi):
+        v = I.fresh('%s.%s' % (name, n), 'int')
+        I.assume(z3.And(v >= lo, v <= hi))
+        return v
+
+    def byts(n):
+        return SymStr('bytes', I.fresh('%s.%s' % (name, n), 'str'))
+    bl = I.fresh(name + '.body_len', 'int')
+    I.assume(z3.And(bl >= 0, bl <= 2 ** 24 - 1))
+    f['body_len'] = bl
+    if cls in ('DataFrame', 'HeadersFrame', 'PushPromiseFrame'):
+        f['data'] = byts('data')
+        pl = rng('pad_length', 0, 255)
+        I.assume(z3.Implies(z3.Not(fl['PADDED']), pl == 0))
+        I.assume(z3.Implies(pl > 0, pl < bl))          # else InvalidPaddingError
+        f['pad_length'] = pl
+    if cls in ('HeadersFrame', 'PriorityFrame'):
+        f['depends_on'] = rng('depends_on', 0, U31)
+        f['stream_weight'] = rng('stream_weight', 0, 255)
+        f['exclusive'] = I.fresh(name + '.exclusive', 'bool')
+    if cls == 'DataFrame':
+        I.assume(bl == z3.Length(f['data'].s) + z3.If(fl['PADDED'], f['pad_length'] + 1, 0))
+    if cls == 'RstStreamFrame':
+        f['error_code'] = rng('error_code', 0, U32)
+    if cls == 'SettingsFrame':
+        m = I.new_sym_map(name + '.settings', None, scalar_desc='int')
+        mo = I.heap.get(m)
+        mo.size = I.fresh(name + '.nsettings', 'int')
+        I.assume(mo.size >= 0)
+        k = z3.Int(name + '!k')
+        I.assume(z3.ForAll([k], z3.Implies(z3.Select(mo.dom, k),
+                 z3.And(k >= 0, k <= 65535, z3.Select(mo.arrays[''], k) >= 0, z3.Select(mo.arrays[''], k) <= U32))))
+        I.assume(z3.Implies(fl['ACK'], mo.size == 0))
+        I.assume(z3.Implies(fl['ACK'], z3.ForAll([k], z3.Not(z3.Select(mo.dom, k)))))
+        f['settings'] = m
+    if cls == 'PushPromiseFrame':
+        p = rng('promised_stream_id', 2, U32)
+        I.assume(p % 2 == 0)
+        f['promised_stream_id'] = p
+    if cls == 'PingFrame':
+        f['opaque_data'] = byts('opaque_data')
+        I.assume(z3.Length(f['opaque_data'].s) == 8)
+    if cls == 'GoAwayFrame':
+        f['last_stream_id'] = rng('last_stream_id', 0, U32)
+        f['error_code'] = rng('error_code', 0, U32)
+        f['additional_data'] = byts('additional_data')
+    if cls == 'WindowUpdateFrame':
+        f['window_increment'] = rng('window_increment', 1, U31)
+    if cls == 'ContinuationFrame':
+        f['data'] = byts('data')
+    if cls == 'AltSvcFrame':
+        f['origin'] = byts('origin')
+        f['field'] = byts('field')
+    if cls == 'ExtensionFrame':
+        f['type'] = rng('type', 0, 255)
+        f['flag_byte'] = rng('flag_byte', 0, 255)
+        f['body'] = byts('body')
+    return I.heap.alloc(Obj(HF + cls, f))
